@@ -50,6 +50,10 @@ var Placements = []string{"top", "nested", "second_file", "imported"}
 // negative = drawn. The caller cycles it so that a cell's few cases cover every shape.
 var InjectShape = -1
 
+// InjectAsBody makes the offending message the response (0) or request (1) type of an added RPC; negative = it
+// is only referred to by a field of a response message.
+var InjectAsBody = -1
+
 func Inject(t *rapid.T, s *Schema, rule, placement string) *Injection {
 	inj := &Injection{Rule: rule, Placement: placement, Class: RuleClass(rule)}
 	main := s.Files[0]
@@ -105,6 +109,17 @@ func Inject(t *rapid.T, s *Schema, rule, placement string) *Injection {
 		main.Messages = append(main.Messages, &Message{Name: "OffenderUser", Fields: []*Field{{Name: "offender_ref", Number: 1, Kind: KMessage, TypeRef: offFQ, Card: Singular}}})
 	}
 	ref()
+	if InjectAsBody >= 0 && len(main.Services) > 0 {
+		// the offender is itself the response (0) or request (1) type of an RPC
+		io := &Message{Name: "OffenderCallIO", Fields: []*Field{{Name: "note", Number: 1, Kind: KString, Card: Singular}}}
+		main.Messages = append(main.Messages, io)
+		mt := &Method{Name: "OffenderCall", Input: s.Pkg + ".OffenderCallIO", Output: offFQ}
+		if InjectAsBody == 1 {
+			mt.Input, mt.Output = offFQ, s.Pkg+".OffenderCallIO"
+		}
+		main.Services[0].Methods = append(main.Services[0].Methods, mt)
+		inj.Shape = "as_rpc_body"
+	}
 	plain := func(n int32) *Field {
 		return &Field{Name: fmt.Sprintf("ok_%d", n), Number: n, Kind: KString, Card: Singular}
 	}
